@@ -61,7 +61,15 @@ var shape = regexp.MustCompile(`^\[(k\d#\d+) .* (k\d#\d+)\]$`)
 func main() {
 	secs := flag.Int("seconds", 3, "duration")
 	seed := flag.Int64("seed", 1, "seed")
+	// -dynstr: pass freshly built (heap) strings to Ctx.SetString instead of constants. SetString converts its argument
+	// with byteconv.S2B, which goes through a reflect.SliceHeader VALUE (a uintptr, invisible to the GC): if the
+	// argument was the last reference, the collector may free the bytes while SetBytes still copies them. Seen once in
+	// ~80 s of this stress as "read: Ctx.SetBytes < Ctx.SetString | write: <whoever got the memory next>". Off by
+	// default so that the check is deterministic; /verif/harness/c06.go turns it on when the finding is listed as
+	// open in known_findings.txt.
+	dynstr := flag.Bool("dynstr", false, "build the strings given to Ctx.SetString at run time")
 	flag.Parse()
+	tags := []string{"T0", "T1", "T2", "T3"}
 	var vers [5]int64
 	reg := func(ni int, way int) {
 		v := int(atomic.AddInt64(&vers[ni], 1))
@@ -110,7 +118,11 @@ func main() {
 					ki, ci := rng.Intn(3), rng.Intn(len(objs))
 					ctx := dyntpl.AcquireCtx()
 					ctx.Set("user", objs[ci], testobj_ins.TestObjectInspector{})
-					ctx.SetString("tag", "T"+strconv.Itoa(ci))
+					if *dynstr {
+						ctx.SetString("tag", "T"+strconv.Itoa(ci))
+					} else {
+						ctx.SetString("tag", tags[ci])
+					}
 					buf.Reset()
 					var err error
 					switch rng.Intn(3) {
